@@ -69,13 +69,29 @@ const KINDS: [(&str, SummaryKind); 5] = [
 
 /// trailing decimal number of a summary line (`path:N\n` or `N\n`)
 fn trailing_number(out: &[u8]) -> Option<u64> {
-    let s = std::str::from_utf8(out).ok()?.trim_end();
+    // (the record terminator is NUL under --null-data)
+    let s = std::str::from_utf8(out).ok()?.trim_end_matches(|c: char| c.is_whitespace() || c == '\0');
     let digits: String = s.chars().rev().take_while(|c| c.is_ascii_digit()).collect::<String>().chars().rev().collect();
     digits.parse().ok()
 }
 
-fn count_lines(out: &[u8]) -> u64 {
-    out.iter().filter(|&&b| b == b'\n').count() as u64
+fn count_lines(out: &[u8], tb: u8) -> u64 {
+    out.iter().filter(|&&b| b == tb).count() as u64
+}
+
+/// number of records of *matching* lines in a Standard printer's output: every line, or — when context lines are
+/// printed too (then the case has line numbers and no path) — the lines whose line number is followed by `:`
+fn count_match_records(out: &[u8], o: &Opts) -> u64 {
+    if !o.has_context() {
+        return count_lines(out, o.tb());
+    }
+    split_lines_t(out, o.tb())
+        .iter()
+        .filter(|(_, l)| {
+            let d = l.iter().take_while(|b| b.is_ascii_digit()).count();
+            d > 0 && l.get(d) == Some(&b':')
+        })
+        .count() as u64
 }
 
 /// F1 (a C01 finding that shows through C10) on one reported line: under --crlf the searcher's fast path reports a
@@ -99,13 +115,13 @@ fn ctx_line(o: &Opts, m: &RegexMatcher, input: &[u8], off: usize, l: &[u8]) -> b
     if o.invert || input.get(off..off + l.len()) != Some(l) {
         return false;
     }
-    let c = content(l, o.crlf);
+    let c = content_o(o, l);
     if m.find(c).ok().flatten().is_some() {
         return false;
     }
     // the buffer the searcher saw starts at the file's start or (after a roll) at an earlier line's start
     let mut starts = vec![0usize];
-    starts.extend(input[..off].iter().enumerate().filter(|(_, &b)| b == b'\n').map(|(i, _)| i + 1));
+    starts.extend(input[..off].iter().enumerate().filter(|(_, &b)| b == o.tb()).map(|(i, _)| i + 1));
     starts.iter().any(|&s| s < off && m.find_at(&input[s..off + c.len()], off - s).ok().flatten().is_some())
 }
 
@@ -153,14 +169,14 @@ fn json_bytes(v: &Value) -> Vec<u8> {
     vec![]
 }
 
-fn mech_of<'a>(msgs: impl Iterator<Item = &'a Value>, crlf: bool) -> Mech {
+fn mech_of<'a>(msgs: impl Iterator<Item = &'a Value>, o: &Opts) -> Mech {
     let mut m = Mech::default();
     for v in msgs {
         let subs = v["data"]["submatches"].as_array().cloned().unwrap_or_default();
         let lines = json_bytes(&v["data"]["lines"]);
         m.subs += subs.len() as u64;
-        for (ls, l) in split_lines(&lines) {
-            let le = ls + content(l, crlf).len();
+        for (ls, l) in split_lines_t(&lines, o.tb()) {
+            let le = ls + content_o(o, l).len();
             for sm in &subs {
                 let (a, b) = (sm["start"].as_u64().unwrap_or(0) as usize, sm["end"].as_u64().unwrap_or(0) as usize);
                 if a.max(ls) < b.min(le) {
@@ -177,7 +193,7 @@ fn mech_of<'a>(msgs: impl Iterator<Item = &'a Value>, crlf: bool) -> Mech {
             if t.is_empty() {
                 m.sub_empty = true;
             }
-            if t.len() >= 2 && t[..t.len() - 1].contains(&b'\n') {
+            if t.len() >= 2 && t[..t.len() - 1].contains(&o.tb()) {
                 m.sub_spans_lines = true;
             }
         }
@@ -274,10 +290,10 @@ fn run_lib(case: &str, o: &Opts, drv: &mut Driver, rep: &mut Report) {
             return;
         }
         let n_matched = full.matched_count();
-        if n_matched > 0 && n_matched < split_lines(input).len() {
+        if n_matched > 0 && n_matched < split_lines_t(input, o.tb()).len() {
             nontrivial = true;
         }
-        if input.last().map_or(false, |&b| b != b'\n') {
+        if input.last().map_or(false, |&b| b != o.tb()) {
             rep.branch("lib:no-final-terminator");
         }
         let tables = match tables_for(drv, "c09.cuts", o, ml, &matcher, &full, true, o.invert) {
@@ -485,12 +501,12 @@ fn run_lib(case: &str, o: &Opts, drv: &mut Driver, rep: &mut Report) {
         // ---- the relations, on the implementation's own outputs
         let count = trailing_number(&sum_out["count"]).unwrap_or(0);
         let count_matches = trailing_number(&sum_out["countmatches"]).unwrap_or(0);
-        let std_lines = count_lines(&std_outs[0]);
-        let o_records = count_lines(&std_outs[1]);
+        let std_lines = count_match_records(&std_outs[0], o);
+        let o_records = count_match_records(&std_outs[1], o);
         let json_matches: Vec<&Value> = json_msgs.iter().filter(|m| m["type"] == "match").collect();
         let json_subs: u64 = json_matches.iter().map(|m| m["data"]["submatches"].as_array().map_or(0, |a| a.len()) as u64).sum();
         let tie_rel = "relations between the outputs of the reporting modes (property C10)";
-        let mech = mech_of(json_matches.iter().copied(), o.crlf);
+        let mech = mech_of(json_matches.iter().copied(), o);
         let fail = |rep: &mut Report, class: &str, d: String| {
             viol(rep, "impl_vs_spec", class, tie_rel, case, format!("file {} ({:?}): {}", i, show(input), d));
         };
@@ -572,11 +588,24 @@ fn base_args(o: &Opts) -> Vec<String> {
     f(o.word && !o.xline, "-w");
     f(o.xline, "-x");
     f(o.crlf, "--crlf");
+    f(o.nulldata, "--null-data");
+    f(o.text, "-a");
     f(o.multi, "-U");
     f(o.dotall, "--multiline-dotall");
     f(o.invert, "-v");
     if let Some(m) = o.max {
         a.push(format!("-m{}", m));
+    }
+    // context flags must not change what any mode reports about matches
+    if o.passthru {
+        a.push("--passthru".into());
+    } else {
+        if o.before > 0 {
+            a.push(format!("-B{}", o.before));
+        }
+        if o.after > 0 {
+            a.push(format!("-A{}", o.after));
+        }
     }
     // a third of the cases each: single-threaded `search` via -j1, via --sort path, and `search_parallel`
     match fnv(o.pat.as_bytes()) % 3 {
@@ -601,9 +630,18 @@ fn rg(rgbin: &std::path::Path, dir: &std::path::Path, o: &Opts, extra: &[&str]) 
     Some(Run { stdout: out.stdout, code: out.code, panicked: stderr.contains("panicked") || out.timed_out })
 }
 
-/// `path\0rest\n` records -> rest per path
-fn per_path(out: &[u8]) -> BTreeMap<String, Vec<Vec<u8>>> {
+/// `path\0rest\n` records -> rest per path (under --null-data the records end with NUL as well: `path\0rest\0`)
+fn per_path_t(out: &[u8], tb: u8) -> BTreeMap<String, Vec<Vec<u8>>> {
     let mut m: BTreeMap<String, Vec<Vec<u8>>> = BTreeMap::new();
+    if tb == 0 {
+        let toks: Vec<&[u8]> = out.split(|&b| b == 0).collect();
+        for pair in toks.chunks(2) {
+            if pair.len() == 2 {
+                m.entry(String::from_utf8_lossy(pair[0]).to_string()).or_default().push(pair[1].to_vec());
+            }
+        }
+        return m;
+    }
     for (_, l) in split_lines(out) {
         if let Some(z) = l.iter().position(|&b| b == 0) {
             let p = String::from_utf8_lossy(&l[..z]).to_string();
@@ -667,9 +705,14 @@ fn run_cli(case: &str, o: &Opts, args: &Args, drv: &mut Driver, rep: &mut Report
         _ => "cli:parallel",
     });
     let run = |extra: &[&str]| rg(&rgbin, &dir, o, extra);
+    // with context lines in the output the matching lines are told apart by their line number field (`N:` vs `N-`)
+    let ctx_on = o.has_context();
+    if ctx_on {
+        rep.branch("cli:context");
+    }
     let (std_r, o_r, c_r, cm_r, l_r, bl_r, q_r, j_r, st_r) = match (
-        run(&["-H", "--no-heading", "--null", "-N"]),
-        run(&["-H", "--no-heading", "--null", "-N", "-o"]),
+        run(&["-H", "--no-heading", "--null", if ctx_on { "-n" } else { "-N" }]),
+        run(&["-H", "--no-heading", "--null", if ctx_on { "-n" } else { "-N" }, "-o"]),
         run(&["-c", "-H", "--null"]),
         run(&["--count-matches", "-H", "--null"]),
         run(&["-l", "--null"]),
@@ -699,13 +742,31 @@ fn run_cli(case: &str, o: &Opts, args: &Args, drv: &mut Driver, rep: &mut Report
         }
         return;
     }
-    let std_pp = per_path(&std_r.stdout);
-    let o_pp = per_path(&o_r.stdout);
+    let only_matching_lines = |m: BTreeMap<String, Vec<Vec<u8>>>| -> BTreeMap<String, Vec<Vec<u8>>> {
+        if !ctx_on {
+            return m;
+        }
+        m.into_iter()
+            .map(|(p, v)| {
+                let v: Vec<Vec<u8>> = v
+                    .into_iter()
+                    .filter(|r| {
+                        let d = r.iter().take_while(|b| b.is_ascii_digit()).count();
+                        d > 0 && r.get(d) == Some(&b':')
+                    })
+                    .collect();
+                (p, v)
+            })
+            .filter(|(_, v)| !v.is_empty())
+            .collect()
+    };
+    let std_pp = only_matching_lines(per_path_t(&std_r.stdout, o.tb()));
+    let o_pp = only_matching_lines(per_path_t(&o_r.stdout, o.tb()));
     let num = |m: &BTreeMap<String, Vec<Vec<u8>>>, p: &str| -> u64 {
         m.get(p).and_then(|v| v.first()).and_then(|x| std::str::from_utf8(x).ok()).and_then(|s| s.trim().parse().ok()).unwrap_or(0)
     };
-    let c_pp = per_path(&c_r.stdout);
-    let cm_pp = per_path(&cm_r.stdout);
+    let c_pp = per_path_t(&c_r.stdout, o.tb());
+    let cm_pp = per_path_t(&cm_r.stdout, o.tb());
     let l_set = nul_list(&l_r.stdout);
     let bl_set = nul_list(&bl_r.stdout);
     // JSON per file
@@ -772,7 +833,7 @@ fn run_cli(case: &str, o: &Opts, args: &Args, drv: &mut Driver, rep: &mut Report
         if count > 0 {
             any_count = true;
         }
-        let mech = mech_of(j_msgs.get(p).map(|v| v.iter()).into_iter().flatten(), o.crlf);
+        let mech = mech_of(j_msgs.get(p).map(|v| v.iter()).into_iter().flatten(), o);
         if count != lines {
             let class = class_count_vs_lines(rep, ml, o, count, cm);
             fail(rep, class, format!("{}: -c {} but {} matching lines printed", p, count, lines));
@@ -864,9 +925,28 @@ fn run_cli(case: &str, o: &Opts, args: &Args, drv: &mut Driver, rep: &mut Report
         // matching file (quit_after_match = quiet AND no stats), so the totals are the same sums
         if let Some(qs) = run(&["-q", "--stats"]) {
             let qb = stats_block(&qs.stdout);
+            // mechanism of the multi-line counting class here: under -U -m N the quiet Summary sink stops a file after
+            // N *matches*, the Standard sink behind plain --stats after N *blocks*: some file reaches N matches, and
+            // the quiet totals are never the larger ones
+            let limit_by_matches = |rep: &mut Report| -> &'static str {
+                match o.max {
+                    Some(n)
+                        if ml
+                            && !o.invert
+                            && n > 0
+                            && all.iter().any(|p| num(&cm_pp, p) >= n)
+                            && ["matches", "matched lines", "bytes searched"].iter().all(|k| qb.get(*k).copied().unwrap_or(0) <= sb.get(*k).copied().unwrap_or(0)) =>
+                    {
+                        rep.branch(&format!("class:{}:attributed", ML_COUNT));
+                        ML_COUNT
+                    }
+                    _ => "",
+                }
+            };
             for k in ["matches", "matched lines", "files contained matches", "files searched", "bytes searched"] {
                 if qb.get(k) != sb.get(k) {
-                    fail(rep, "", format!("-q --stats '{}' = {:?}, --stats says {:?}", k, qb.get(k), sb.get(k)));
+                    let class = if k == "matches" || k == "matched lines" || k == "bytes searched" { limit_by_matches(rep) } else { "" };
+                    fail(rep, class, format!("-q --stats '{}' = {:?}, --stats says {:?}", k, qb.get(k), sb.get(k)));
                 }
             }
             if qs.code != std_r.code {
@@ -904,7 +984,15 @@ fn run_cli(case: &str, o: &Opts, args: &Args, drv: &mut Driver, rep: &mut Report
                         sb.get("matches").copied().unwrap_or(0),
                     ];
                     if x != want {
-                        fail(rep, "", format!("--json -q summary totals {:?}, --stats says {:?}", x, want));
+                        // same mechanism as for -q --stats above (the quiet sink's totals are never the larger ones)
+                        let class = match o.max {
+                            Some(n) if ml && !o.invert && n > 0 && all.iter().any(|p| num(&cm_pp, p) >= n) && x[0] == want[0] && x[1] == want[1] && (2..5).all(|k| x[k] <= want[k]) => {
+                                rep.branch(&format!("class:{}:attributed", ML_COUNT));
+                                ML_COUNT
+                            }
+                            _ => "",
+                        };
+                        fail(rep, class, format!("--json -q summary totals {:?}, --stats says {:?}", x, want));
                     }
                     rep.branch("cli:json-quiet");
                 }
@@ -918,7 +1006,7 @@ fn run_cli(case: &str, o: &Opts, args: &Args, drv: &mut Driver, rep: &mut Report
     if o.invert {
         // `-c -o -v` stays --count (F33, fixed 221fc03: it used to become --count-matches and print 0)
         if let Some(r) = run(&["-c", "-o", "-H", "--null"]) {
-            if per_path(&r.stdout) != c_pp {
+            if per_path_t(&r.stdout, o.tb()) != c_pp {
                 fail(rep, "", "-v -c -o differs from -v -c".into());
             }
             let m = drv.ask("c10.normalize count 1 1 0 0");
@@ -927,7 +1015,7 @@ fn run_cli(case: &str, o: &Opts, args: &Args, drv: &mut Driver, rep: &mut Report
             }
         }
         if let Some(r) = run(&["--count-matches", "-H", "--null"]) {
-            if per_path(&r.stdout) != c_pp {
+            if per_path_t(&r.stdout, o.tb()) != c_pp {
                 fail(rep, "", "-v --count-matches differs from -v -c".into());
             }
         }
@@ -936,12 +1024,83 @@ fn run_cli(case: &str, o: &Opts, args: &Args, drv: &mut Driver, rep: &mut Report
             viol(rep, "impl_vs_model", "", "hiargs mode normalisation vs Model.Summary.normalizeMode", case, m);
         }
     } else if let Some(r) = run(&["-o", "-c", "-H", "--null"]) {
-        if per_path(&r.stdout) != cm_pp {
+        if per_path_t(&r.stdout, o.tb()) != cm_pp {
             fail(rep, "", "-o -c differs from --count-matches".into());
         }
         let m = drv.ask("c10.normalize count 0 1 0 0");
         if !m.starts_with("printer=sum:countmatches ") {
             viol(rep, "impl_vs_model", "", "hiargs mode normalisation vs Model.Summary.normalizeMode", case, m);
+        }
+    }
+    // ---- output options of the summary modes: --include-zero, no --null, -I
+    if o.tb() == b'\n' {
+        let strip = |m: &BTreeMap<String, Vec<Vec<u8>>>| -> BTreeMap<String, Vec<Vec<u8>>> {
+            m.iter()
+                .map(|(p, v)| (p.clone(), v.iter().map(|x| String::from_utf8_lossy(x).trim_end().as_bytes().to_vec()).collect()))
+                .collect()
+        };
+        let (c_s, cm_s) = (strip(&c_pp), strip(&cm_pp));
+        for (flag, base) in [("-c", &c_s), ("--count-matches", &cm_s)] {
+            if o.invert && flag == "--count-matches" {
+                continue;
+            }
+            if let Some(r) = run(&[flag, "--include-zero", "-H", "--null"]) {
+                let z = strip(&per_path_t(&r.stdout, o.tb()));
+                let mut want = (*base).clone();
+                for p in &all {
+                    want.entry(p.clone()).or_insert_with(|| vec![b"0".to_vec()]);
+                }
+                rep.branch("cli:include-zero");
+                if z != want {
+                    fail(rep, "", format!("{} --include-zero prints {:?}, {} prints {:?}", flag, z, flag, base));
+                }
+            }
+            // without --null: `path:count` lines
+            if let Some(r) = run(&[flag, "-H"]) {
+                let mut got: BTreeMap<String, Vec<Vec<u8>>> = BTreeMap::new();
+                for (_, l) in split_lines(&r.stdout) {
+                    let l = l.strip_suffix(b"\n").unwrap_or(l);
+                    let l = if o.crlf { l.strip_suffix(b"\r").unwrap_or(l) } else { l };
+                    if let Some(p) = all.iter().filter(|p| l.starts_with(p.as_bytes()) && l.get(p.len()) == Some(&b':')).max_by_key(|p| p.len()) {
+                        got.entry(p.clone()).or_default().push(l[p.len() + 1..].to_vec());
+                    } else {
+                        fail(rep, "", format!("{} -H printed the line {:?}", flag, show(l)));
+                    }
+                }
+                rep.branch("cli:count-with-filename");
+                if &got != base {
+                    fail(rep, "", format!("{} -H prints {:?}, with --null {:?}", flag, got, base));
+                }
+            }
+            // -I: the bare counts (file order is fixed only on the single-threaded paths)
+            if let Some(r) = run(&[flag, "-I"]) {
+                let mut got: Vec<Vec<u8>> = split_lines(&r.stdout)
+                    .into_iter()
+                    .map(|(_, l)| {
+                        let l = l.strip_suffix(b"\n").unwrap_or(l);
+                        (if o.crlf { l.strip_suffix(b"\r").unwrap_or(l) } else { l }).to_vec()
+                    })
+                    .collect();
+                let mut want: Vec<Vec<u8>> = base.values().flat_map(|v| v.iter().cloned()).collect();
+                if fnv(o.pat.as_bytes()) % 3 == 2 {
+                    got.sort();
+                    want.sort();
+                }
+                rep.branch("cli:count-no-filename");
+                if got != want {
+                    fail(rep, "", format!("{} -I prints {:?}, with file names {:?}", flag, got, base));
+                }
+            }
+        }
+        // -l / --files-without-match without --null: one path per line
+        for (flag, base) in [("-l", &l_set), ("--files-without-match", &bl_set)] {
+            if let Some(r) = run(&[flag]) {
+                let got: BTreeSet<String> = String::from_utf8_lossy(&r.stdout).lines().map(|l| l.trim_end_matches('\r').to_string()).collect();
+                rep.branch("cli:list-lines");
+                if &got != base {
+                    fail(rep, "", format!("{} prints {:?}, with --null {:?}", flag, got, base));
+                }
+            }
         }
     }
     if any_count && l_set.len() < all.len() {
@@ -994,15 +1153,20 @@ fn main() {
     let mut drv = Driver::spawn(&args.driver);
     let mut rep = Report::new(
         "C10",
-        "lib: random patterns (pool biased to empty-matching patterns, anchors, word boundaries; multi-line pool under -U) x \
-         one file of 0-6 short lines (CRLF, invalid UTF-8, a quarter without final terminator) x -i/-w/-x/-v/-U/-m N/--crlf, \
-         every real sink on the same search. cli: the same on trees of 2-4 files through the rg binary in all eight modes. \
-         Excluded: context flags (not part of C10), NUL bytes. Non-trivial: some but not all lines match (lib); some but not \
-         all files have a count (cli). Distinct by case text.",
+        "lib: random patterns (pool biased to empty-matching patterns, anchors incl. \\A \\z (?-m)^ (?-m)$, word boundaries; \
+         multi-line pool under -U; extra pools `pat`) x one file of 0-6 short lines (CRLF, invalid UTF-8, a quarter without \
+         final terminator) x -i/-w/-x/-v/-U/-m N/--crlf, every real sink on the same search. cli: the same on trees of 2-4 \
+         files through the rg binary in all eight modes, plus the output options of the counting modes (--include-zero, \
+         with and without --null, -I) and -q --stats / --json -q. Further streams (lib and cli): z = --null-data; a = NUL \
+         bytes in the input under -a; ctx = -A/-B/--passthru added to every mode (they must not change any count; -m N \
+         together with after-context is left out, see assumptions). Non-trivial: some but not all lines match (lib); some \
+         but not all files have a count (cli). Distinct by case text.",
     );
     for c in corpus_cases(&args) {
         run_case(&c, &args, &mut drv, &mut rep);
     }
+    // probing aid: RGVERIF_STREAM=<tag> runs only the generated cases of one stream
+    let only_stream = std::env::var("RGVERIF_STREAM").ok();
     if args.replay.is_none() {
         let mut rng = Rng::new(args.seed);
         let n = args.cases.unwrap_or(if args.thorough { 5000 } else { 600 });
@@ -1012,7 +1176,80 @@ fn main() {
             if i < 8 {
                 rep.sample(case.clone());
             }
-            run_case(&case, &args, &mut drv, &mut rep);
+            if only_stream.as_deref().map_or(true, |s| case.starts_with(s)) {
+                run_case(&case, &args, &mut drv, &mut rep);
+            }
+        }
+        // z: --null-data, both streams (own generator state: the cases above stay what they were)
+        let mut rng = Rng::new(args.seed ^ 0x2e70_da7a);
+        for i in 0..n / 6 {
+            let cli = i % 4 == 3;
+            let mut o = gen_opts(&mut rng, i % 3 == 2, cli);
+            o.crlf = false;
+            o.nulldata = true;
+            o.null = false;
+            o.files = o.files.iter().map(|f| to_nul_data(&mut rng, f)).collect();
+            let case = o.to_case(if cli { "cli" } else { "lib" });
+            if only_stream.as_deref().map_or(true, |s| s == "z") {
+                run_case(&case, &args, &mut drv, &mut rep);
+            }
+        }
+        // pat: the extra pattern pools
+        let mut rng = Rng::new(args.seed ^ 0x9a77_e125);
+        for i in 0..n / 6 {
+            let multi = i % 2 == 1;
+            let cli = i % 3 == 2;
+            let mut o = gen_opts(&mut rng, multi, cli);
+            o.pat = rng.pick(if multi { EXTRA_MULTI } else { EXTRA_SINGLE }).to_string();
+            let case = o.to_case(if cli { "cli" } else { "lib" });
+            if only_stream.as_deref().map_or(true, |s| s == "pat") {
+                run_case(&case, &args, &mut drv, &mut rep);
+            }
+        }
+        // a: NUL bytes in the input, binary detection off (-a/--text)
+        let mut rng = Rng::new(args.seed ^ 0x7e87_0a11);
+        for i in 0..n / 8 {
+            let cli = i % 3 == 2;
+            let mut o = gen_opts(&mut rng, i % 4 == 3, cli);
+            o.text = true;
+            o.null = false;
+            o.files = o.files.iter().map(|f| with_nuls(&mut rng, f)).collect();
+            let case = o.to_case(if cli { "cli" } else { "lib" });
+            if only_stream.as_deref().map_or(true, |s| s == "a") {
+                run_case(&case, &args, &mut drv, &mut rep);
+            }
+        }
+        // ctx: context flags (-A/-B/--passthru) must not change what any mode reports about matches
+        let mut rng = Rng::new(args.seed ^ 0x0c07_7e87);
+        for i in 0..n / 6 {
+            let cli = i % 3 == 2;
+            let mut o = gen_opts(&mut rng, i % 4 == 3, cli);
+            match rng.below(4) {
+                0 => o.before = rng.range(1, 2),
+                1 => o.after = rng.range(1, 2),
+                2 => {
+                    o.before = 1;
+                    o.after = rng.range(1, 2)
+                }
+                _ => o.passthru = true,
+            }
+            // (-m N together with after-context is left out: a matching line inside the after-context window of the
+            // N-th match is printed — and counted by --stats — as a matching line, which the counting modes never see;
+            // context flags are not among the options C10 quantifies over)
+            if o.max.is_some() {
+                o.after = 0;
+                o.passthru = false;
+                o.before = o.before.max(1);
+            }
+            if !cli {
+                // matching and context records are told apart by `N:` / `N-`
+                o.lineno = true;
+                o.with_path = false;
+            }
+            let case = o.to_case(if cli { "cli" } else { "lib" });
+            if only_stream.as_deref().map_or(true, |s| s == "ctx") {
+                run_case(&case, &args, &mut drv, &mut rep);
+            }
         }
     }
     rep.write(&args);
